@@ -27,6 +27,9 @@ S1 == Schema([Logical_Switch_Port |-> 1..NCols])
 S2 == Schema([bridge |-> {i \in 1..NCols : i % 3 = 0}, Flow_Sample_Collector_Set |-> {i \in 1..NCols : i % 3 = 1}, T |-> {i \in 1..NCols : i % 3 = 2}])
 S3 == Schema([Only_Enums |-> {i \in 1..NCols : ColSeq[i].enum}, No_Columns_But_One |-> {1}])
 S4 == Schema([QoS |-> {i \in 1..NCols : ColKind(ColSeq[i]) = "map"}, SSL |-> {i \in 1..NCols : ColKind(ColSeq[i]) = "opt"}, a_b_c |-> {i \in 1..NCols : ColKind(ColSeq[i]) = "set"}])
-GenSchemas == IF Tier = "quick" THEN <<S2, S3>> ELSE <<S1, S2, S3, S4>>
+S5 == Schema([Port_Binding |-> {i \in 1..NCols : i % 5 = 0}, ACL |-> {i \in 1..NCols : i % 5 = 1}, dns |-> {i \in 1..NCols : i % 5 = 2},
+              Load_Balancer_Health_Check |-> {i \in 1..NCols : i % 5 = 3}, x |-> {i \in 1..NCols : i % 5 = 4}])
+S6 == Schema([One_Column_Each_A |-> {2}, One_Column_Each_B |-> {NCols}, Half |-> {i \in 1..NCols : i <= NCols \div 2}])
+GenSchemas == IF Tier = "quick" THEN <<S2, S3>> ELSE <<S1, S2, S3, S4, S5, S6>>
 EmitGen(x) == \A i \in DOMAIN GenSchemas : PrintT(<<"CASE", ToJson([mode |-> "gen", id |-> i, tables |-> GenSchemas[i].tables, expect |-> GenSchemas[i].expect])>>)
 =============================================================================
